@@ -382,9 +382,11 @@ impl HProblem for TspP {
         // tour has another length
         let n = self.spec.dim;
         let mut dist = vec![0.0; n * n];
+        // ... and the cities renumbered (city a of this map is city a+1 of the other): whatever a
+        // component derived from the other instance's distances is wrong for this one
         for a in 0..n {
             for b in 0..n {
-                dist[a * n + b] = 1.5 * self.spec.dist[b * n + a];
+                dist[a * n + b] = 1.5 * self.spec.dist[((b + 1) % n) * n + (a + 1) % n];
             }
         }
         TspP::new(TspSpec { dist, ..self.spec.clone() })
